@@ -7,7 +7,7 @@ From stdpp Require Import gmap sets list.
 From Coq Require Import NArith.
 From SV Require Import SM.IndexModel SM.IndexProofs SM.IndexSearchProofs SM.IndexShapes SM.IndexShapeProofs
   SM.IndexUniqueProofs SM.IndexCopySetProofs SM.IndexMaint SM.IndexMaintProofs SM.IndexEquivProofs
-  SM.IndexRemove SM.IndexRemoveProofs.
+  SM.IndexRemove SM.IndexRemoveProofs SM.IndexDel SM.IndexDelProofs SM.IndexListOps SM.IndexListOpsProofs.
 
 Section C07.
   Variable fold : str → str.
@@ -97,6 +97,40 @@ Section C07.
     ae_run fold p es oneshot st = add_ents fold es st ∧ (Inv fold st → Inv fold (ae_run fold p es oneshot st)).
   Proof.
     intros p es oneshot st Hp. rewrite (ae_run_ok fold p es oneshot st Hp). split; [done|]. by apply add_ents_inv.
+  Qed.
+
+  (** Entity.__delitem__ with a single key, as written (round 3): the statements before the lookup loop as a
+      maintenance program [p] (the by_target update of the targetname branch, whose removal key is the entity's
+      current targetname, and the refusal to delete the classname, in either order) and the loop that pops the stored
+      key as a shape [dl], both read off the source.  When every path through [p] executes what the three named
+      obligations ask for and the loop is case-insensitive and pops the stored spelling, the function is the model's
+      [del_item] for all arguments and states, and keeps the invariant.  ([del self[k1, k2, ...]], pop, popitem and
+      clear go through this function: [del_items], [pop_item], [pop_first], [clear] of the model.) *)
+  Theorem c07_delitem_as_written : ∀ p dl e key st,
+    del_maint_ok p = true → del_loop_ok dl = true →
+    del_item_pg fold p dl e key st = del_item fold e key st ∧
+    (Inv fold st → Inv fold (del_item_pg fold p dl e key st).1).
+  Proof.
+    intros p dl e key st Hp Hdl. rewrite (del_item_pg_ok fold p dl e key st Hp Hdl). split; [done|].
+    by apply del_item_inv.
+  Qed.
+
+  (** VMF.remove_ent and VMF.add_ent as written (round 3): little programs over the entity list and the two indexes
+      whose conditions are evaluated where they stand (the membership test of remove_ent after the list removal).
+      A remove_ent program that passes its three path obligations — the worldspawn stays indexed, an entity that is
+      still listed (it was added more than once) stays indexed, any other entity leaves the list and both indexes —
+      is the model's [remove_ent]; an add_ent program that appends the item and adds it to each index exactly once
+      is the model's [add_ent] (for an entity object of this map that is not the worldspawn: the modelled domain).
+      Both keep the invariant. *)
+  Theorem c07_remove_ent_as_written : ∀ p e st, remove_ok p = true →
+    v_run fold p e st = remove_ent fold e st ∧ (Inv fold st → Inv fold (v_run fold p e st)).
+  Proof.
+    intros p e st Hp. rewrite (remove_ent_pg_ok fold p e st Hp). split; [done|]. by apply remove_ent_inv.
+  Qed.
+  Theorem c07_add_ent_as_written : ∀ p e st, add_ok p = true → e ≠ spawn st → e < nobj st →
+    v_run fold p e st = add_ent fold e st ∧ (Inv fold st → Inv fold (v_run fold p e st)).
+  Proof.
+    intros p e st Hp Hs Hn. rewrite (add_ent_pg_ok fold p e st Hp Hs Hn). split; [done|]. by apply add_ent_inv.
   Qed.
 
   (** VMF.search as written: any program for the two branches that passes the shape obligations — over the real
@@ -243,6 +277,35 @@ Theorem c07_remove_copyset_variants_refuted :
    (rc_run rc_never_drops 7 1 {[ 7 := {[1]} ]}).1 = ({[ 7 := ∅ ]} : gmap nat (gset nat)) ∧
    ix_remove 7 1 ({[ 7 := {[1]} ]} : gmap nat (gset nat)) = ∅).
 Proof. exact rc_refutations. Qed.
+
+(** Round 3: today's __delitem__, remove_ent and add_ent programs pass their obligations; refuted variants: a
+    by_target[None] addition in __delitem__ without the membership test (an entity that is not in the map ends up in
+    by_target[None]), a pop by the caller's spelling (KeyError for a key stored in another letter case), the
+    membership test of remove_ent placed before the list removal (the entity leaves the list but stays indexed), the
+    guard of remove_ent written with `and` (removing the worldspawn takes it out of by_class). *)
+Example c07_delitem_listops_today_ok :
+  del_maint_ok del_maint_today = true ∧ del_loop_ok del_loop_today = true ∧
+  remove_ok remove_ent_today = true ∧ add_ok add_ent_today = true.
+Proof. repeat split; reflexivity. Qed.
+Theorem c07_delitem_variants_refuted :
+  (del_targetname_ok del_maint_unguarded = false ∧ del_classname_refused del_maint_unguarded = true ∧
+   del_other_ok del_maint_unguarded = true ∧
+   let st0 := run ascii_fold [NewEnt [(cn, [97]%N); (tn, [120]%N)]] init in
+   let r := del_item_pg ascii_fold del_maint_unguarded del_loop_today 1 tn st0 in
+   Inv ascii_fold st0 ∧ r.2 = 0 ∧ ents r.1 = [] ∧ ¬ Inv ascii_fold r.1) ∧
+  (del_loop_pops_stored del_loop_pop_caller = false ∧
+   delitem_loop ascii_fold del_loop_pop_caller [84;110]%N [([116;78]%N, [120]%N)] = ([([116;78]%N, [120]%N)], 1) ∧
+   delitem_loop ascii_fold del_loop_today [84;110]%N [([116;78]%N, [120]%N)] = ([], 0)).
+Proof. exact del_refutations. Qed.
+Theorem c07_remove_ent_variants_refuted :
+  (remove_unlists_and_unindexes remove_ent_test_first = false ∧
+   let st0 := run ascii_fold [CreateEnt [97]%N []] init in
+   let st1 := v_run ascii_fold remove_ent_test_first 1 st0 in
+   Inv ascii_fold st0 ∧ ents st1 = [] ∧ ¬ Inv ascii_fold st1) ∧
+  (remove_worldspawn_stays_indexed remove_ent_and_guard = false ∧
+   remove_still_listed_stays_indexed remove_ent_and_guard = false ∧
+   ¬ Inv ascii_fold (v_run ascii_fold remove_ent_and_guard 0 init)).
+Proof. exact listops_refutations. Qed.
 
 (** The hypotheses are satisfiable: ASCII lower-casing. *)
 Example c07_ascii_fold_ok :
